@@ -1,17 +1,38 @@
 #!/bin/sh
-# thorough tier, after the quick analysis passed: (1) the same rules on the other build configurations that select different
-# source files (build tag nocgo selects signature_nocgo.go; the repository does not type-check for 32-bit targets, so no GOARCH=386 run), each in its own process; (2) the seeded-mutant self test of the property: every mutant under
-# /verif/mutations/<Cxx>/ is applied to a scratch copy of /repo (outside /repo and /verif), must still build, and must be reported.
+# thorough tier, after the quick analysis passed: (1) the same rules on the second build configuration that selects different source files
+# (build tag nocgo selects signature_nocgo.go; the repository does not type-check with CGO_ENABLED=0 alone or for 32-bit targets, so there
+# are no such runs), in its own process; (2) the mutant self test of the property: every mutant under /verif/mutations/<Cxx>/ and every
+# caught seeded change for <Cxx> is applied to a scratch copy of /repo (outside /repo and /verif, removed at once), must still build, and
+# must be reported. The outcome is added to the evidence file written by the quick part.
 set -u
 cd "$(dirname "$0")/.." || exit 2
 PROP="$1"
 REPO="${VERIF_REPO:-/repo}"
 st=0
+cfgs=""
 for cfg in TAGS=nocgo; do
   echo "== $PROP under $cfg"
-  ./bin/lemolint check "$PROP" --repo "$REPO" --verif "$(pwd)" --tier thorough --goenv "$cfg" --no-evidence || st=1
+  if ./bin/lemolint check "$PROP" --repo "$REPO" --verif "$(pwd)" --tier thorough --goenv "$cfg" --no-evidence; then cfgs="$cfgs $cfg:ok"; else cfgs="$cfgs $cfg:FAILED"; st=1; fi
 done
+log=$(mktemp /tmp/lemoselftest.XXXXXX)
 if [ -d "mutations/$PROP" ]; then
-  ./tools/selftest.sh "$PROP" || st=1
+  ./tools/selftest.sh "$PROP" 4 | tee "$log" || st=1
 fi
+python3 - "$PROP" "$log" "$cfgs" <<'PY'
+import json, sys, re
+prop, log, cfgs = sys.argv[1], sys.argv[2], sys.argv[3]
+p = '/verif/evidence/%s.json' % prop
+try:
+    d = json.load(open(p))
+except Exception:
+    sys.exit(0)
+txt = open(log).read()
+caught = len(re.findall(r'^MUTANT-CAUGHT', txt, re.M)); missed = len(re.findall(r'^MUTANT-(MISSED|NOBUILD)', txt, re.M)); stale = len(re.findall(r'^MUTANT-STALE', txt, re.M))
+d['tier'] = 'thorough'
+d['coverage']['extra_build_configurations'] = cfgs.split()
+d['coverage']['selftest'] = {'mutants_applied': caught + missed, 'reported': caught, 'not_reported': missed, 'stale_skipped': stale,
+                             'samples': re.findall(r'^MUTANT-\w+ (\S+)', txt, re.M)[:8]}
+json.dump(d, open(p, 'w'), indent=1)
+PY
+rm -f "$log"
 exit $st
